@@ -455,11 +455,76 @@ def check_facing(ctx, R="C07.facing"):
                     f"veneer.{f} specifies {sorted(set(v.priorities) & {'yaw', 'pitch', 'roll'})} and declares a dependency on parentOrientation but its helper "
                     f"reads only {sorted(reads)}: the angles are computed in the global frame and then applied relative to the parent orientation",
                 )
+            elif "parentOrientation" in v.deps and _componentwise(v.helper):
+                comp = _componentwise(v.helper)
+                ctx.finding(
+                    R,
+                    comp[0],
+                    f"{f} changes frame component-wise",
+                    f"veneer.{f}: the helper uses `{unparse(comp[0])}`; subtracting a single Euler angle of the parent is a frame change only when the "
+                    f"parent has no pitch and roll: with a tilted parent the resulting orientation points elsewhere (the parent's whole rotation must be "
+                    f"applied: .inverse, localAnglesFor, applyRotation)",
+                )
             elif "parentOrientation" not in v.deps:
                 ctx.finding(R, v.helper, f"{f} lacks parentOrientation dependency", f"veneer.{f} specifies Euler angles without depending on parentOrientation")
             else:
                 ctx.ok(R, v.helper, f"veneer.{f}: helper reads parentOrientation")
     ctx.floor(R, n, 7, "orientation-specifying helpers")
+
+
+def _componentwise(helper):
+    """reads of a single Euler component of context.parentOrientation inside a value helper"""
+    out = []
+    ctxp = helper.args.args[0].arg if helper.args.args else "context"
+    for n in ast.walk(helper):
+        if isinstance(n, ast.Attribute) and n.attr in ("yaw", "pitch", "roll", "eulerAngles") and unparse(n.value) == f"{ctxp}.parentOrientation":
+            out.append(n)
+    return out
+
+
+ANGLE_FUNCS = [
+    (VE, "RelativeHeading"),
+    (VE, "ApparentHeading"),
+    (VE, "AngleTo"),
+    (VE, "AngleFrom"),
+    (VE, "AltitudeTo"),
+    (VE, "AltitudeFrom"),
+    ("scenic.core.geometry", "apparentHeadingAtPoint"),
+    ("scenic.core.vectors", "Vector.angleTo"),
+    ("scenic.core.vectors", "Vector.azimuthTo"),
+    ("scenic.core.vectors", "Vector.altitudeTo"),
+]
+
+
+def check_angles(ctx, R="C07.angles"):
+    ctx.rule(
+        R,
+        "angle-valued operators return normalised angles: every return of the heading / angle operators (frozen list) is either "
+        "normalizeAngle(...) or a call of another function of the list; a bare sum or difference of angles leaves (-pi, pi], so e.g. "
+        "`relative heading` of 175 deg from -175 deg would be 350 deg instead of -10 deg",
+    )
+    model = ctx.model
+    names = {q.split(".")[-1] for _, q in ANGLE_FUNCS}
+    n = 0
+    for mod, q in ANGLE_FUNCS:
+        fn = model.func(mod, q)
+        for r in lib.returns_of(fn):
+            if r.value is None:
+                continue
+            n += 1
+            v = r.value
+            if isinstance(v, ast.Name):
+                # the value a local holds when it is returned: its last definition before the return
+                defs = [a for a in walk_local(fn) if isinstance(a, ast.Assign) and any(isinstance(t, ast.Name) and t.id == v.id for t in a.targets) and a.lineno <= r.lineno]
+                if defs:
+                    v = max(defs, key=lambda a: a.lineno).value
+            cn = (dotted(v.func) or (v.func.attr if isinstance(v.func, ast.Attribute) else "")) if isinstance(v, ast.Call) else ""
+            last = cn.split(".")[-1]
+            if last == "normalizeAngle" or last in names:
+                ctx.ok(R, r, f"{q} returns {'a normalised angle' if last == 'normalizeAngle' else 'the result of ' + last}")
+            else:
+                ctx.finding(R, r, f"{q} returns an unnormalised angle", f"{q} returns `{norm_text(v, 80)}`, which is not wrapped in normalizeAngle: the operator can produce angles outside (-pi, pi]")
+    ctx.floor(R, n, 10, "returns of angle-valued operators")
 
 
 def check_constants(ctx, R="C07.const"):
@@ -492,4 +557,5 @@ def check(ctx):
     check_binding(ctx)
     check_grammar_fields(ctx)
     check_facing(ctx)
+    check_angles(ctx)
     check_constants(ctx)
